@@ -35,14 +35,26 @@ def files():
                               G.F("author_ref", 42, G.T.TYPE_STRING, resource_ref="lab.example.com/Author")] +
                   [G.F(f"r{i}", i + 2, G.T.TYPE_STRING, resource_ref=f"lab.example.com/{n}") for i, n in enumerate(PATTERNS)] +
                   [G.F("bucket_ref", 40, G.T.TYPE_STRING, resource_ref="store.example.com/Bucket")])
+    # resources visible only through the result type of a long-running operation: a resource message (Report) and a file-level definition (Finding)
+    # that the result refers to; the request of that method refers to no resource at all
+    for typ, pat in (("lab.example.com/Finding", "findings/{finding}"),):
+        rd = fd.options.Extensions[resource_pb2.resource_definition].add()
+        rd.type = typ
+        rd.pattern.append(pat)
+    G.add_message(fd, "Report", [G.F("name", 1, G.T.TYPE_STRING), G.F("finding", 2, G.T.TYPE_STRING, resource_ref="lab.example.com/Finding")],
+                  resource=("lab.example.com/Report", "reports/{report}"))
+    G.add_message(fd, "ReportMeta", [G.F("pct", 1, G.T.TYPE_INT32)])
+    G.add_message(fd, "PlainReq", [G.F("title", 1, G.T.TYPE_STRING)])
     svc = G.add_service(fd, "Lab")
     for name in PATTERNS:
         G.add_method(svc, f"Get{name}", ".acme.lab.v1.Req", f".acme.lab.v1.{name}", http=("get", "/v1/{name=%s/*}" % name.lower()))
+    G.add_method(svc, "MakeReport", ".acme.lab.v1.PlainReq", ".google.longrunning.Operation", http=("post", "/v1/reports:make"), body="*", lro=("Report", "ReportMeta"))
     return [store, fd]
 
 
 def scenarios():
     from vf import genlab as G
+    G.stub_pandoc_if_absent()
     failures, cases = [], 0
     api, res = G.generate(files(), "autogen-snippets=false", to_generate=["acme/lab/v1/lab.proto"])
     with G.materialised(res):
@@ -108,7 +120,9 @@ def scenarios():
         elif C.parse_bucket_path(C.bucket_path(bucket="b1")) != {"bucket": "b1"}:
             failures.append({"resource": "store.example.com/Bucket", "what": "helpers are not inverse"})
         # file-level resource definitions: every referenced one gets its pair of helpers
-        for nm, seg in (("publisher", {"publisher": "p1"}), ("author", {"author": "a1", "pen": "n2"})):
+        for nm, seg in (("publisher", {"publisher": "p1"}), ("author", {"author": "a1", "pen": "n2"}),
+                        # ... and the two that are visible only through the result type of the long-running MakeReport
+                        ("report", {"report": "r1"}), ("finding", {"finding": "f1"})):
             cases += 1
             if not (hasattr(C, f"{nm}_path") and hasattr(C, f"parse_{nm}_path") and hasattr(lab_v1.LabAsyncClient, f"parse_{nm}_path")):
                 failures.append({"resource": nm, "what": "no path helpers for a referenced file-level resource definition"})
